@@ -65,13 +65,7 @@ impl<T> AsRef<[T]> for IntoIter<T> {
 
 impl<T: Clone> Clone for IntoIter<T> {
   fn clone(&self) -> IntoIter<T> {
-    let w = self.v.clone();
-    let pos_cpy = self.pos;
-    IntoIter {
-      v: w,
-      pos: pos_cpy,
-      marker: core::marker::PhantomData,
-    }
+    IntoIter::new(crate::MiniVec::from(self.as_slice()))
   }
 }
 
